@@ -32,10 +32,11 @@ Proof. exact Proofs.Summ.apply_sound. Qed.
 Theorem apply_in_out_consistent : forall s sg, g_in (apply s sg) = g_out (apply s sg).
 Proof. exact Proofs.Summ.apply_in_out. Qed.
 
-(** The full statement about the pinned table.  It does NOT hold of the pinned tree (16 entries do not conform, see
-    corpus/c09_known_nonconforming.txt and known_findings.txt); it is kept visible here and proved with the committed,
-    individually justified exception list [gen_std_known].  A new non-conforming entry makes the proof of
-    [std_table_conforms_except] fail. *)
+(** The full statement about the pinned table.  It does NOT hold of the pinned tree: 16 entries do not conform
+    (corpus/c09_known_nonconforming.txt: 2 of them lose a real flow - strings.Join, (*net/http.Request).WithContext - and are
+    findings in known_findings.txt; 14 list positions that name nothing and lose no flow).  The statement is kept visible here
+    and proved with the committed, individually justified exception list [gen_std_known].  A new non-conforming entry makes
+    the proof of [std_table_conforms_except] fail. *)
 Definition std_table_conforms_stmt : Prop :=
   forallb (fun e => conforms (e_summary e) (e_sig e)) gen_std_table = true.
 
